@@ -13,9 +13,12 @@ import (
 	"os"
 	"regexp"
 	"runtime/debug"
+	"runtime/pprof"
 	"sort"
 	"strings"
+	"sync"
 	"sync/atomic"
+	"time"
 
 	"github.com/polynetwork/poly/common"
 	cstates "github.com/polynetwork/poly/core/states"
@@ -36,8 +39,9 @@ type S struct {
 	D          polyenv.Dump
 	H          uint32
 	LastEpochH uint32 // ghost: height of the block in which the view last changed (genesis: 0)
-	Hist       string // ghost: sorted "canonical key=index;" of every pool entry ever observed
+	Hist       string // ghost: sorted "PeerPubkey string=index;" of every pool entry ever observed
 	Bad        []bad  // violations found by the transition that produced this state (reported with the path by Check)
+	c          *stCache
 }
 
 type bad struct {
@@ -50,6 +54,7 @@ type txInfo struct {
 	kind string   // reg | unreg | appr | quit | black | white | commit
 	keys []string // PeerPubkey strings the call names
 	desc string
+	macro bool // part of an "every consensus member votes" macro: the macro stops once the decision took effect
 }
 
 type evDef struct {
@@ -64,6 +69,7 @@ type model struct {
 	names  []string
 	events map[string]*evDef
 	txs    int64
+	union  bool // trace mode: both profiles in one alphabet
 }
 
 func (m *model) add(name, height string, build func(pre *nmView) []txInfo) {
@@ -71,6 +77,9 @@ func (m *model) add(name, height string, build func(pre *nmView) []txInfo) {
 		name += "@" + height
 	}
 	if _, dup := m.events[name]; dup {
+		if m.union {
+			return
+		}
 		panic("duplicate event " + name)
 	}
 	m.events[name] = &evDef{name: name, height: height, build: build}
@@ -93,118 +102,174 @@ func namesOf(as []*actor) string {
 	return strings.Join(out, "+")
 }
 
-// buildEvents: the event alphabet (documented in the evidence as "alphabet").
-// Height-insensitive methods (register / unregister / approve / quit / white never read the height) are issued in the
-// current block only; every height-sensitive event (blackNode can run executeCommitDpos, commitDpos) exists in the
-// variants same block / next block, commitDpos additionally at governanceView.Height+MaxBlockChangeView-1 and
-// +MaxBlockChangeView. Since insensitive events do not read the height, "insensitive@next ; X" and "insensitive@same ; X@next"
-// reach the same canonical state, so the lead's {same,next} for every event is covered.
-func (m *model) buildEvents(thorough bool) {
+// buildEvents: the event alphabet of one exploration profile (listed in the evidence as "alphabet_<profile>_pool_<n>").
+//
+// Two profiles are explored per pool size (one BFS each, same oracle, same initial state):
+//   epochs: whole governance decisions as macro events ("every current consensus member votes, in a fixed order, until
+//           the decision takes effect") + register / unregister / quit + commitDpos by operator and outsider: long
+//           histories over many epochs (members leaving, returning, being black- and white-listed).
+//   votes:  single votes of every validator / an applicant / the outsider on one proposal of each kind (approve A0,
+//           black [V0], black [A0], white V0) interleaved with quits and epoch changes: partial quorums, votes of
+//           voters that lose consensus status, votes that survive an epoch change.
+// Height: register / unregister / approve / quit / white never read the height and are issued in the current block;
+// every height-sensitive event (blackNode may run executeCommitDpos; commitDpos) exists as same block / next block,
+// commitDpos additionally at governanceView.Height+MaxBlockChangeView-1 and +MaxBlockChangeView. Since insensitive events
+// do not read the height, "e@next ; X" and "e@same ; X@next" reach the same canonical state, so {same,next} for every
+// event is covered.
+func (m *model) buildEvents(profile string, thorough bool) {
 	c := m.c
 	one := func(t txInfo) func(*nmView) []txInfo { return func(*nmView) []txInfo { return []txInfo{t} } }
-	pool := append(append([]*actor{}, c.Vals...), c.Apps...)
-	regs := append(append([]*actor{}, pool...), c.Alias...)
-
-	// register / unregister by the owner; one registration of somebody else's key by the outsider (allowed by the contract:
-	// there is no proof of possession) and one unregister of somebody else's request by the outsider.
-	for _, a := range regs {
-		a := a
+	V, A := c.Vals, c.Apps
+	al := func(n string) []*actor { // alias actors exist only when alias encodings are enabled
+		if a := c.byName[n]; a != nil {
+			return []*actor{a}
+		}
+		return nil
+	}
+	cat := func(ls ...[]*actor) []*actor {
+		var out []*actor
+		for _, l := range ls {
+			out = append(out, l...)
+		}
+		return out
+	}
+	reg := func(a *actor) {
 		m.add("reg:"+a.Name, "same", one(txInfo{tx: txRegister(a.Key, a.A, a.A), kind: "reg", keys: []string{a.Key}}))
 	}
-	m.add("reg:A1/byO", "same", one(txInfo{tx: txRegister(c.Apps[1].Key, c.Out.A, c.Out.A), kind: "reg", keys: []string{c.Apps[1].Key}}))
-	unregs := []*actor{c.Apps[0], c.Apps[1], c.Vals[0]}
-	if thorough {
-		unregs = regs
-	}
-	for _, a := range unregs {
+	unreg := func(a *actor) {
 		m.add("unreg:"+a.Name, "same", one(txInfo{tx: txPeer(node_manager.UNREGISTER_CANDIDATE, a.Key, a.A, a.A), kind: "unreg", keys: []string{a.Key}}))
 	}
-	m.add("unreg:A0/byO", "same", one(txInfo{tx: txPeer(node_manager.UNREGISTER_CANDIDATE, c.Apps[0].Key, c.Out.A, c.Out.A), kind: "unreg", keys: []string{c.Apps[0].Key}}))
-
-	// approveCandidate: single votes + macro "every current consensus member votes"
-	voters := append(append([]*actor{}, c.Vals...), c.Apps[0], c.Out)
-	if thorough {
-		voters = append(append(append([]*actor{}, c.Vals...), c.Apps...), c.Out)
-	}
-	for _, x := range c.Apps {
-		for _, v := range voters {
-			if v == x {
-				continue
-			}
-			m.add("appr:"+x.Name+"/"+v.Name, "same", one(txInfo{tx: txPeer(node_manager.APPROVE_CANDIDATE, x.Key, v.A, v.A), kind: "appr", keys: []string{x.Key}}))
-		}
+	quit := func(a *actor) {
+		m.add("quit:"+a.Name, "same", one(txInfo{tx: txPeer(node_manager.QUIT_NODE, a.Key, a.A, a.A), kind: "quit", keys: []string{a.Key}}))
 	}
 	allVote := func(kind string, keys []string, mk func(v *polyenv.Acct) *types.Transaction) func(pre *nmView) []txInfo {
 		return func(pre *nmView) []txInfo {
 			var out []txInfo
 			for _, v := range pre.consensus(c) {
-				out = append(out, txInfo{tx: mk(v), kind: kind, keys: keys})
+				out = append(out, txInfo{tx: mk(v), kind: kind, keys: keys, macro: true})
 			}
 			return out
 		}
 	}
-	for _, x := range regs {
-		x := x
+	apprAll := func(x *actor) {
 		m.add("apprAll:"+x.Name, "same", allVote("appr", []string{x.Key}, func(v *polyenv.Acct) *types.Transaction {
 			return txPeer(node_manager.APPROVE_CANDIDATE, x.Key, v, v)
 		}))
 	}
-
-	// quitNode by the owner (every pool key incl. aliases), once by the outsider for a key it does not own
-	for _, a := range regs {
-		m.add("quit:"+a.Name, "same", one(txInfo{tx: txPeer(node_manager.QUIT_NODE, a.Key, a.A, a.A), kind: "quit", keys: []string{a.Key}}))
+	blackAll := func(l []*actor, hgt string) {
+		ks := keysOf(l)
+		m.add("blackAll:"+namesOf(l), hgt, allVote("black", ks, func(v *polyenv.Acct) *types.Transaction { return txBlack(ks, v) }))
 	}
-	m.add("quit:V0/byO", "same", one(txInfo{tx: txPeer(node_manager.QUIT_NODE, c.Vals[0].Key, c.Out.A, c.Out.A), kind: "quit", keys: []string{c.Vals[0].Key}}))
-
-	// blackNode: lists of 1-2 keys
-	V, A := c.Vals, c.Apps
-	stepLists := [][]*actor{{V[0]}, {A[0]}}
-	macroLists := [][]*actor{{V[0]}, {V[1]}, {A[0]}, {A[1]}, {V[0], V[1]}, {V[0], A[0]}, {A[0], A[1]}, {V[0], V[0]}}
-	if thorough {
-		stepLists = append(stepLists, []*actor{V[1]}, []*actor{V[0], V[1]}, []*actor{V[0], A[0]})
-		macroLists = append(macroLists, []*actor{V[2]}, []*actor{V[1], V[0]}, []*actor{V[1], V[2]}, []*actor{A[1], V[0]})
-		for _, al := range c.Alias {
-			macroLists = append(macroLists, []*actor{al})
-		}
-	}
-	for _, hgt := range []string{"same", "next"} {
-		for _, l := range stepLists {
-			ks := keysOf(l)
-			for _, v := range voters {
-				m.add("black:"+namesOf(l)+"/"+v.Name, hgt, one(txInfo{tx: txBlack(ks, v.A), kind: "black", keys: ks}))
-			}
-		}
-		for _, l := range macroLists {
-			ks := keysOf(l)
-			m.add("blackAll:"+namesOf(l), hgt, allVote("black", ks, func(v *polyenv.Acct) *types.Transaction { return txBlack(ks, v) }))
-		}
-	}
-
-	// whiteNode
-	whiteStep := []*actor{V[0]}
-	whiteAll := []*actor{V[0], V[1], A[0], A[1]}
-	if thorough {
-		whiteStep = append(whiteStep, A[0])
-		whiteAll = append(whiteAll, V[2])
-	}
-	for _, x := range whiteStep {
-		for _, v := range voters {
-			m.add("white:"+x.Name+"/"+v.Name, "same", one(txInfo{tx: txPeer(node_manager.WHITE_NODE, x.Key, v.A, v.A), kind: "white", keys: []string{x.Key}}))
-		}
-	}
-	for _, x := range whiteAll {
-		x := x
+	whiteAll := func(x *actor) {
 		m.add("whiteAll:"+x.Name, "same", allVote("white", []string{x.Key}, func(v *polyenv.Acct) *types.Transaction {
 			return txPeer(node_manager.WHITE_NODE, x.Key, v, v)
 		}))
 	}
-
-	// commitDpos: by the operator (m-of-n entry over the CURRENT consensus members) and by the outsider
-	for _, hgt := range []string{"same", "next", "b-1", "b"} {
-		m.add("commit/op", hgt, func(pre *nmView) []txInfo {
-			return []txInfo{{tx: txCommit(polyenv.Multi(pre.consensus(c))), kind: "commit"}}
-		})
-		m.add("commit/O", hgt, one(txInfo{tx: txCommit(polyenv.Single(c.Out.A)), kind: "commit", desc: "outsider"}))
+	commits := func(opH, outH []string) {
+		for _, hgt := range opH {
+			m.add("commit/op", hgt, func(pre *nmView) []txInfo {
+				return []txInfo{{tx: txCommit(polyenv.Multi(pre.consensus(c))), kind: "commit"}}
+			})
+		}
+		for _, hgt := range outH {
+			m.add("commit/O", hgt, one(txInfo{tx: txCommit(polyenv.Single(c.Out.A)), kind: "commit", desc: "outsider"}))
+		}
+	}
+	switch profile {
+	case "epochs":
+		members := []*actor{V[0], V[1], A[0], A[1]}
+		extra := cat(al("V0^"), al("A0#")) // quick: alias encodings can register and be approved (not quit / black-listed)
+		if thorough {
+			members, extra = cat(V, A, c.Alias), nil
+		}
+		for _, a := range members {
+			reg(a)
+			apprAll(a)
+			quit(a)
+		}
+		for _, a := range extra {
+			reg(a)
+			apprAll(a)
+		}
+		unreg(A[0])
+		m.add("quit:V0/byO", "same", one(txInfo{tx: txPeer(node_manager.QUIT_NODE, V[0].Key, c.Out.A, c.Out.A), kind: "quit", keys: []string{V[0].Key}}))
+		both := [][]*actor{{V[0]}, {A[0]}, {V[0], V[1]}}
+		sameOnly := [][]*actor{{V[1]}, {V[0], A[0]}, {A[0], A[1]}, {V[0], V[0]}}
+		if thorough {
+			both = append(append(both, sameOnly...), []*actor{A[1]}, []*actor{V[2]}, []*actor{V[1], V[0]}, []*actor{V[1], V[2]}, []*actor{A[1], V[0]})
+			sameOnly = nil
+			for _, x := range c.Alias {
+				both = append(both, []*actor{x})
+			}
+		}
+		for _, l := range both {
+			blackAll(l, "same")
+			blackAll(l, "next")
+		}
+		for _, l := range sameOnly {
+			blackAll(l, "same")
+		}
+		wl := []*actor{V[0], A[0]}
+		if thorough {
+			wl = []*actor{V[0], V[1], V[2], A[0], A[1]}
+		}
+		for _, x := range wl {
+			whiteAll(x)
+		}
+		if thorough {
+			commits([]string{"same", "next"}, []string{"same", "next", "b-1", "b"})
+		} else {
+			commits([]string{"same", "next"}, []string{"next", "b-1", "b"})
+		}
+	case "votes":
+		voters := cat(V, []*actor{A[0], c.Out})
+		targetsAppr := []*actor{A[0]}
+		stepBlack := [][]*actor{{V[0]}, {A[0]}}
+		stepWhite := []*actor{V[0]}
+		if thorough {
+			voters = cat(V, A, []*actor{c.Out})
+			targetsAppr = []*actor{A[0], A[1]}
+			stepBlack = append(stepBlack, []*actor{V[0], V[1]}, []*actor{V[0], A[0]})
+			stepWhite = append(stepWhite, A[0])
+		}
+		reg(A[0])
+		unreg(A[0])
+		if thorough {
+			reg(A[1])
+			reg(V[0])
+			apprAll(V[0])
+		}
+		m.add("reg:A1/byO", "same", one(txInfo{tx: txRegister(A[1].Key, c.Out.A, c.Out.A), kind: "reg", keys: []string{A[1].Key}}))
+		m.add("unreg:A0/byO", "same", one(txInfo{tx: txPeer(node_manager.UNREGISTER_CANDIDATE, A[0].Key, c.Out.A, c.Out.A), kind: "unreg", keys: []string{A[0].Key}}))
+		apprAll(A[0])
+		for _, x := range targetsAppr {
+			for _, v := range voters {
+				if v != x {
+					m.add("appr:"+x.Name+"/"+v.Name, "same", one(txInfo{tx: txPeer(node_manager.APPROVE_CANDIDATE, x.Key, v.A, v.A), kind: "appr", keys: []string{x.Key}}))
+				}
+			}
+		}
+		for i, l := range stepBlack {
+			ks := keysOf(l)
+			for _, v := range voters {
+				for _, hgt := range []string{"same", "next"} {
+					if hgt == "next" && i > 0 && !thorough {
+						continue // quick: the next-block variant only for the first (validator) target
+					}
+					m.add("black:"+namesOf(l)+"/"+v.Name, hgt, one(txInfo{tx: txBlack(ks, v.A), kind: "black", keys: ks}))
+				}
+			}
+		}
+		for _, x := range stepWhite {
+			for _, v := range voters {
+				m.add("white:"+x.Name+"/"+v.Name, "same", one(txInfo{tx: txPeer(node_manager.WHITE_NODE, x.Key, v.A, v.A), kind: "white", keys: []string{x.Key}}))
+			}
+		}
+		quit(V[1])
+		quit(A[0])
+		commits([]string{"same", "next"}, []string{"next", "b"})
+	default:
+		panic(profile)
 	}
 }
 
@@ -239,13 +304,29 @@ func reason(err error) string {
 	return s
 }
 
+// stCache: per-state scratch (not part of the state): the world and decoded view rebuilt from S.D, reused across the
+// events tried on this state as long as no transaction succeeded on it (a failed transaction leaves the map untouched —
+// asserted). mc.BFS expands one state on one goroutine, the mutex only guards against future changes of that.
+type stCache struct {
+	mu sync.Mutex
+	w  *mapworld.World
+	v  *nmView
+}
+
 func (m *model) step(s S, e string) (S, bool) {
 	d := m.events[e]
-	w := mapworld.NewFrom(s.D)
-	pre, err := decode(w)
-	if err != nil {
-		m.r.HarnessError("decode pre-state: %v", err)
+	sc := s.c
+	sc.mu.Lock()
+	defer sc.mu.Unlock()
+	if sc.w == nil {
+		sc.w = mapworld.NewFrom(s.D)
+		v, err := decode(sc.w)
+		if err != nil {
+			m.r.HarnessError("decode pre-state: %v", err)
+		}
+		sc.v = v
 	}
+	w, pre := sc.w, sc.v
 	h, ok := m.heightOf(s, pre, d.height)
 	if !ok {
 		return s, false
@@ -254,31 +335,55 @@ func (m *model) step(s S, e string) (S, bool) {
 	if len(txs) == 0 {
 		return s, false
 	}
-	ns := S{H: h, LastEpochH: s.LastEpochH, Hist: s.Hist}
+	ns := S{H: h, LastEpochH: s.LastEpochH, Hist: s.Hist, c: &stCache{}}
 	cur := pre
+	changed := false
 	for _, t := range txs {
 		before := len(w.M)
 		res := w.Exec(t.tx, h, ts)
 		atomic.AddInt64(&m.txs, 1)
-		post, err := decode(w)
-		if err != nil {
-			ns.Bad = append(ns.Bad, bad{"state:undecodable-after-" + t.kind, map[string]any{"error": err.Error()}})
-			break
-		}
 		if res.Panic != nil {
 			m.r.Class("panic")
 		}
-		if !res.OK && (len(res.WriteSet) != 0 || before != len(w.M)) {
-			m.r.HarnessError("failed transaction left a write set (%s)", e)
+		post := cur
+		if !res.OK {
+			if len(res.WriteSet) != 0 || before != len(w.M) {
+				m.r.HarnessError("failed transaction left a write set (%s)", e)
+			}
+		} else {
+			changed = true
+			var err error
+			if post, err = decode(w); err != nil {
+				ns.Bad = append(ns.Bad, bad{"state:undecodable-after-" + t.kind, map[string]any{"error": err.Error()}})
+				break
+			}
 		}
 		m.checkTx(cur, t, res, post, h, &ns)
-		var bs []bad
-		ns.Hist, bs = m.invState(post, ns.Hist)
-		ns.Bad = append(ns.Bad, bs...)
+		if res.OK {
+			var bs []bad
+			ns.Hist, bs = m.invState(post, ns.Hist)
+			ns.Bad = append(ns.Bad, bs...)
+		}
+		if t.macro && res.OK && effect(cur, post) {
+			break
+		}
 		cur = post
 	}
-	ns.D = w.Dump()
+	if changed {
+		ns.D = w.Dump()
+		sc.w, sc.v = nil, nil // the map now holds the successor; rebuild for the next event
+	} else {
+		ns.D = s.D
+	}
+	if e == m.names[len(m.names)-1] {
+		sc.w, sc.v = nil, nil // last event of the menu: release the scratch world
+	}
 	return ns, true
+}
+
+// effect: did the transaction change anything but the vote record (pool, black list, pending applications, view)?
+func effect(a, b *nmView) bool {
+	return a.View != b.View || len(a.Black) != len(b.Black) || len(a.Apply) != len(b.Apply) || fmt.Sprint(a.Pool) != fmt.Sprint(b.Pool)
 }
 
 // checkTx: the per-transition clauses of the property, evaluated for ONE real transaction (pre -> post at height h).
@@ -304,7 +409,7 @@ func (m *model) checkTx(pre *nmView, t txInfo, res polyenv.Result, post *nmView,
 		switch {
 		case epoch:
 			tag = "ok+epoch"
-		case len(post.Pool) != len(pre.Pool) || fmt.Sprint(post.Pool) != fmt.Sprint(pre.Pool) || len(post.Black) != len(pre.Black):
+		case effect(pre, post):
 			tag = "ok+effect"
 		}
 	}
@@ -316,7 +421,7 @@ func (m *model) checkTx(pre *nmView, t txInfo, res polyenv.Result, post *nmView,
 		r.Class("register_accepted")
 		for _, k := range t.keys {
 			if preBlack[canonOfString(k)] {
-				viol("black:blacklisted-key-registered", map[string]any{"key": m.nameKeys([]string{k})})
+				viol("black:blacklisted-key-registered"+altTag(k), map[string]any{"key": m.nameKeys([]string{k})})
 			}
 		}
 	}
@@ -330,7 +435,7 @@ func (m *model) checkTx(pre *nmView, t txInfo, res polyenv.Result, post *nmView,
 	postBlack := post.blackCanon()
 	for _, e := range post.Pool {
 		if !preKeys[e.Key] && preBlack[e.Canon] && postBlack[e.Canon] {
-			viol("black:blacklisted-key-enters-pool", map[string]any{"key": m.nameKeys([]string{e.Key})})
+			viol("black:blacklisted-key-enters-pool"+altTag(e.Key), map[string]any{"key": m.nameKeys([]string{e.Key})})
 		}
 	}
 
@@ -407,6 +512,19 @@ func (m *model) checkTx(pre *nmView, t txInfo, res polyenv.Result, post *nmView,
 	}
 }
 
+// altTag: violations that involve a PeerPubkey string which is NOT the canonical encoding of the key it denotes (upper-case
+// hex, uncompressed point ...) get their own stable key: they share one root cause (registerCandidate accepts any
+// encoding while pool / black list / index records are keyed by string resp. raw bytes) and must not hide, nor be hidden
+// by, a violation on canonically encoded keys.
+func altTag(keys ...string) string {
+	for _, k := range keys {
+		if canonOfString(k) != k {
+			return ":alternative-encoding"
+		}
+	}
+	return ""
+}
+
 func (m *model) nameKeys(keys []string) []string {
 	out := make([]string, len(keys))
 	for i, k := range keys {
@@ -439,7 +557,7 @@ func (m *model) invState(v *nmView, hist string) (newHist string, bads []bad) {
 		}
 		byStr[e.Key] = true
 		if o, ok := byCanon[e.Canon]; ok && o != e.Key {
-			viol("pool:public-key-in-two-entries", map[string]any{"entries": m.nameKeys([]string{o, e.Key}), "public_key": e.Canon})
+			viol("pool:public-key-in-two-entries"+altTag(o, e.Key), map[string]any{"entries": m.nameKeys([]string{o, e.Key}), "public_key": e.Canon})
 		} else {
 			byCanon[e.Canon] = e.Key
 		}
@@ -452,7 +570,7 @@ func (m *model) invState(v *nmView, hist string) (newHist string, bads []bad) {
 			viol("pool:unknown-status", nil)
 		}
 	}
-	// ghost history: key -> index over the whole run
+	// ghost history: PeerPubkey string -> index over the whole run
 	h := map[string]string{}
 	for _, kv := range strings.Split(hist, ";") {
 		if i := strings.IndexByte(kv, '='); i > 0 {
@@ -461,15 +579,20 @@ func (m *model) invState(v *nmView, hist string) (newHist string, bads []bad) {
 	}
 	for _, e := range v.Pool {
 		idx := fmt.Sprint(e.Index)
-		if o, ok := h[e.Canon]; ok && o != idx {
+		if o, ok := h[e.Key]; ok && o != idx {
 			viol("index:returning-key-got-a-different-index", map[string]any{"entry": m.nameKeys([]string{e.Key}), "was": o, "now": idx})
 		}
 		for k, o := range h {
-			if o == idx && k != e.Canon {
-				viol("index:index-of-a-former-member-given-to-another-key", map[string]any{"entry": m.nameKeys([]string{e.Key}), "index": idx})
+			same := canonOfString(k) == e.Canon
+			switch {
+			case k == e.Key:
+			case same && o != idx: // the same public key under another encoding holds / held another index
+				viol("index:returning-key-got-a-different-index:alternative-encoding", map[string]any{"entry": m.nameKeys([]string{e.Key}), "other": m.nameKeys([]string{k}), "was": o, "now": idx})
+			case !same && o == idx:
+				viol("index:index-of-a-former-member-given-to-another-key"+altTag(k, e.Key), map[string]any{"entry": m.nameKeys([]string{e.Key}), "other": m.nameKeys([]string{k}), "index": idx})
 			}
 		}
-		h[e.Canon] = idx
+		h[e.Key] = idx
 	}
 	ks := make([]string, 0, len(h))
 	for k, i := range h {
@@ -524,17 +647,47 @@ var mbcv uint32
 
 func main() {
 	debug.SetMemoryLimit(6 << 30)
+	debug.SetGCPercent(800) // allocation-heavy (fresh MemDB skip lists per transaction inside the code under test); memory stays small
 	r := ev.Start("C34", "model_checking")
-	r.Require("accept", "reject", "epoch_change", "register_accepted")
-	depth := r.QT(6, 9)
-	if v := os.Getenv("C34_DEPTH"); v != "" {
-		fmt.Sscan(v, &depth)
+	if pf := os.Getenv("C34_PROF"); pf != "" {
+		f, _ := os.Create(pf)
+		pprof.StartCPUProfile(f)
+		defer pprof.StopCPUProfile()
 	}
+	r.Require("accept", "reject", "epoch_change", "register_accepted")
+	// quick: pool 4 to depth 6, pool 5 to depth 5 (about 4x fewer states per level in pool 4); thorough: depth 9, every job gets
+	// a quarter of the time budget and reports the depth it completed.
+	depthOf := func(n int) int {
+		d := r.QT(6, 9)
+		if r.Quick() && n == 5 {
+			d = 5
+		}
+		if v := os.Getenv("C34_DEPTH"); v != "" {
+			fmt.Sscan(v, &d)
+		}
+		return d
+	}
+	start := time.Now()
+	budget := r.QT(200, 1700) // seconds over all four jobs (ev's own deadline still applies)
 	aliases := os.Getenv("C34_ALIASES") != "0"
 	cov := map[string]any{}
 	total := mc.Stats{}
 	var perPool []map[string]any
+	type job struct {
+		n       int
+		profile string
+	}
+	var jobs []job
 	for _, n := range []int{4, 5} {
+		for _, p := range []string{"epochs", "votes"} {
+			jobs = append(jobs, job{n, p})
+		}
+	}
+	for ji, j := range jobs {
+		n := j.n
+		depth := depthOf(n)
+		jobEnd := start.Add(time.Duration(budget*(ji+1)/len(jobs)) * time.Second)
+		stop := func() bool { return r.Expired() || time.Now().After(jobEnd) }
 		vals := polyenv.Keys(n)
 		polyenv.Setup(0, vals)
 		polyenv.InstallHeightLedger()
@@ -542,7 +695,16 @@ func main() {
 		if aliases {
 			m.c.addAliases()
 		}
-		m.buildEvents(r.Thorough())
+		if os.Getenv("C34_TRACE") != "" {
+			if j.profile != "epochs" {
+				continue
+			}
+			m.union = true
+			m.buildEvents("epochs", true)
+			m.buildEvents("votes", true)
+		} else {
+			m.buildEvents(j.profile, r.Thorough())
+		}
 		w := mapworld.New()
 		w.Genesis(vals)
 		v0, err := decode(w)
@@ -557,13 +719,19 @@ func main() {
 		for _, b := range b0 {
 			r.Violation(b.Key, b.Detail)
 		}
-		init := S{D: w.Dump(), H: 1, LastEpochH: 0, Hist: hist0}
+		init := S{D: w.Dump(), H: 1, LastEpochH: 0, Hist: hist0, c: &stCache{}}
 		if tr := os.Getenv("C34_TRACE"); tr != "" {
 			m.trace(init, strings.Split(tr, ","))
 			continue
 		}
-		if msg := m.selfCheck(vals); msg != "" {
-			r.HarnessError("mapworld differs from polyenv.World: %s", msg)
+		if j.profile == "epochs" {
+			if msg := m.selfCheck(vals); msg != "" {
+				r.HarnessError("mapworld differs from polyenv.World: %s", msg)
+			}
+		}
+		if r.Expired() {
+			r.Capped(fmt.Sprintf("pool %d profile %s not started", n, j.profile))
+			continue
 		}
 		st := mc.BFS(mc.Config[S]{
 			Init:   []S{init},
@@ -573,11 +741,12 @@ func main() {
 			Check: func(prev S, e string, next S, path []string) {
 				for _, b := range next.Bad {
 					b.Detail["pool_size"] = n
+					b.Detail["profile"] = j.profile
 					b.Detail["path"] = path
 					r.Violation(b.Key, b.Detail)
 				}
-				if len(path) <= 2 {
-					r.Sample(map[string]any{"pool_size": n, "path": path, "height": next.H})
+				if len(path) == 3 && len(next.D) != len(prev.D) {
+					r.Sample(map[string]any{"pool_size": n, "profile": j.profile, "path": path, "height": next.H})
 				}
 			},
 			Inv: func(s S, path []string) {
@@ -598,19 +767,19 @@ func main() {
 					r.Violation(b.Key, b.Detail)
 				}
 			},
-			MaxDepth: depth, Workers: 8, Stop: r.Expired,
+			MaxDepth: depth, Workers: 8, Stop: stop,
 		})
 		if st.Truncated {
-			r.Capped(fmt.Sprintf("pool %d: deadline inside depth %d", n, st.MaxDepth+1))
+			r.Capped(fmt.Sprintf("pool %d profile %s: deadline inside depth %d", n, j.profile, st.MaxDepth+1))
 		}
-		perPool = append(perPool, map[string]any{"pool_size": n, "events": len(m.names), "states": st.States, "transitions": st.Transitions,
-			"real_transactions": m.txs, "max_depth": st.MaxDepth, "per_depth": st.PerDepth, "fixpoint": !st.DepthCapped && !st.Truncated})
+		perPool = append(perPool, map[string]any{"pool_size": n, "profile": j.profile, "events": len(m.names), "states": st.States, "transitions": st.Transitions,
+			"real_transactions": m.txs, "depth_bound": depth, "max_depth": st.MaxDepth, "complete_depth": completeDepth(st), "per_depth": st.PerDepth, "fixpoint": !st.DepthCapped && !st.Truncated})
 		total.States += st.States
 		total.Transitions += st.Transitions
 		if st.MaxDepth > total.MaxDepth {
 			total.MaxDepth = st.MaxDepth
 		}
-		cov["alphabet_pool_"+fmt.Sprint(n)] = m.names
+		cov["alphabet_"+j.profile+"_pool_"+fmt.Sprint(n)] = m.names
 	}
 	if os.Getenv("C34_TRACE") != "" {
 		os.Exit(0)
@@ -627,9 +796,9 @@ func main() {
 	cov["transitions"] = total.Transitions
 	cov["traces_validated_against_impl"] = total.Transitions
 	cov["max_depth"] = total.MaxDepth
-	cov["depth_bound"] = depth
 	cov["pools"] = perPool
 	cov["alias_encodings_in_alphabet"] = aliases
+	pprof.StopCPUProfile()
 	r.Finish(cov)
 }
 
@@ -673,4 +842,15 @@ func (m *model) selfCheck(vals []*polyenv.Acct) string {
 	}
 	add(4, txPeer(node_manager.QUIT_NODE, c.Apps[0].Key, c.Apps[0].A, c.Apps[0].A))
 	return mapworld.SelfCheck(vals, ops, ts)
+}
+
+// completeDepth: the largest d such that every state at depth < d has been expanded (all sequences of length <= d explored).
+func completeDepth(st mc.Stats) int {
+	if st.Truncated {
+		return st.MaxDepth // the level being expanded when the deadline fired is incomplete
+	}
+	if st.DepthCapped {
+		return st.MaxDepth
+	}
+	return st.MaxDepth + 1 // fixpoint: nothing new beyond
 }
